@@ -44,6 +44,10 @@ fn one(program_seed: u64, schedule_seed: u64, cause: &str, k: u64) -> Outcome {
         let (lines, items) = bus.finish(false);
         return Outcome { lines, items, victim_ops: 0, triggered: true, flagged: false };
     }
+    if cause != "none" {
+        // the observer must know from the start that this run has an injected termination cause
+        bus.log.push(json!({"t": "cause", "cl": victim, "cause": cause, "k": k}));
+    }
     let tokens = Rc::new(Cell::new(0u32));
     let (_n, slots) = bus_driver::program::spawn_program(&mut bus, &mut prng, "calls,events,channels,chaos", &tokens);
     let fault: Rc<Slot<bool>> = Slot::new();
@@ -58,7 +62,6 @@ fn one(program_seed: u64, schedule_seed: u64, cause: &str, k: u64) -> Outcome {
     loop {
         if !triggered && cause != "io" && cause != "peerio" && k > 0 && ops(&bus) >= k {
             triggered = true;
-            bus.log.push(json!({"t": "cause", "cl": victim, "cause": cause, "k": k}));
             match cause {
                 "shutdown" => {
                     if let Some(h) = &bus.clients[victim].handle {
